@@ -79,6 +79,38 @@ def gen_cases(rng, n, prop):
     return cases
 
 
+def rest_leg(rng, stats):
+    """the same rule where a filter text reaches the library through the server: a search whose filter text is not one
+    expression is refused (GET query string and POST body), a filter that is one expression is applied"""
+    from restlib import Server, build_server
+    from urllib.parse import quote
+    ok, msg = build_server()
+    srv = Server()
+    try:
+        if not ok or not srv.start():
+            return {'engine': 'rest', 'what': 'server does not build or start: ' + msg[-300:], 'signature': 'filter:C15:rest-nostart'}
+        srv.request('POST', '/api/v1/collections', {'name': 'f', 'distance_function': 'euclidean', 'vector_size': 2, 'quantization': 64})
+        srv.request('POST', '/api/v1/collections/f/records', [{'id': i, 'vector': [float(i), 0.0], 'metadata': {'a': 'v%d' % i, 'b': 'x%d' % i}} for i in (1, 2, 3)])
+        junk = ['a == "v1" zzz', 'a == "v1" b == "x1"', 'a == "v1" and a == "v1"', "a == 'v1' 'lit'", 'a == "v1" 17', 'a == "v1" )', 'a == "v1" AND b == "x1" "tail"', 'a == "v1" OR']
+        rng.shuffle(junk)
+        for t in junk:
+            for method, path, body in (('GET', '/api/v1/collections/f/search?limit=10&filter=' + quote(t), None),
+                                       ('POST', '/api/v1/collections/f/search', {'limit': 10, 'filter': t}),
+                                       ('GET', '/api/v1/collections/f/search?k=2&filter=' + quote(t), None)):
+                st, resp = srv.request(method, path, body)
+                stats['rest_requests'] = stats.get('rest_requests', 0) + 1
+                if st == 200:
+                    return {'engine': 'rest', 'what': 'the server accepted a search whose filter text is not one expression (%s %s): the text was ignored, answer %s' % (method, path[:120], str(resp)[:120]),
+                            'filter': t, 'signature': 'filter:C15:rest-accepted'}
+        st, resp = srv.request('GET', '/api/v1/collections/f/search?limit=10&filter=' + quote('a == "v2"'), None)
+        ids = [r.get('id') for r in (resp.get('results') or [])] if isinstance(resp, dict) else None
+        if st != 200 or ids != [2]:
+            return {'engine': 'rest', 'what': 'a listing with the filter a == "v2" answered %s %s' % (st, str(resp)[:160]), 'signature': 'filter:C15:rest-valid'}
+    finally:
+        srv.cleanup()
+    return None
+
+
 def filter_property(prop, tier, seed, replay=None):
     chk = Check(prop, tier, seed)
     build = build_all()
@@ -210,6 +242,11 @@ def filter_property(prop, tier, seed, replay=None):
             k = min(left, 1000)
             run(gen_cases(rng, k, prop), 'generated')
             left -= k
+        if prop == 'C15' and nviol == 0:
+            v = rest_leg(rng, stats)
+            if v:
+                chk.violation(v)
+                nviol += 1
         if (corr or broken) and nviol == 0:
             rng2 = random.Random(seed * 7919 + 5)
             for _ in range(4):
